@@ -2,6 +2,7 @@
 import collections as _collections
 
 from vlib import lib
+from vlib.model import frame as F
 from vlib.model import loc as M
 from vlib.runner import ShardResult
 
@@ -71,6 +72,14 @@ def exc_str(o):
     return f"{o[1]}: {o[2]}"[:160]
 
 
+def _jsonable(x):
+    if isinstance(x, (set, frozenset)):
+        return sorted(x)
+    if isinstance(x, tuple):
+        return list(x)
+    return x
+
+
 def feat_positions(f):
     """positions covered by a FeatureInterval in chromosome coordinates"""
     return M.S(tuple((b.start, b.end) for b in f.blocks))
@@ -81,6 +90,12 @@ def make_parent(pk, genome):
         return None
     if pk in ("chrom", "chrom-late"):
         return lib.chrom_parent(genome)
+    if pk[0] == "minus":
+        # a chunk that sits on the MINUS strand of the chromosome: chunk-relative coordinates run against genomic ones
+        from inscripta.biocantor.io.parser import seq_chunk_to_parent
+
+        a, b = pk[1], pk[2]
+        return seq_chunk_to_parent(F.splice(genome, list(range(b - 1, a - 1, -1)), "-"), "chrV", a, b, strand=lib.STRAND["-"])
     return lib.chunk_parent(genome, pk[0], pk[1])
 
 
@@ -171,6 +186,33 @@ def check_aggregate(res, spec):
         res.note("fc.feature_types", str(len(exp)))
         if got[0] != "ok" or got[1] != exp:
             dev("feature_types", sorted(got[1]) if got[0] == "ok" else exc_str(got), sorted(exp), "wrong")
+    # the children are inputs, not scratch space: building the aggregate leaves each child's own answers alone, and a
+    # second owner of the same child objects (what query_by_guids / a sub-collection is) sees the functions of ITS children
+    res.trans(n)
+    for i, (k, ch) in enumerate(zip(kids, children)):
+        got = lib.outcome(lambda: (k.start, k.end, set(k.feature_types) if agg == "fc" else None))
+        exp = (MD.blocks(ch)[0][0], MD.blocks(ch)[-1][1], set(ch.get("types") or []) if agg == "fc" else None)
+        if got[0] != "ok" or got[1] != exp:
+            dev("child-after-construction", [_jsonable(x) for x in got[1]] if got[0] == "ok" else exc_str(got), [_jsonable(x) for x in exp], "changed", child=i)
+    if n > 1:
+        for owner, sub in (("first-only", [0]), ("reversed", list(range(n - 1, -1, -1)))):
+            res.trans()
+            sub_children = [children[i] for i in sub]
+            if MD.primary(sub_children)[0] == MD.REFUSE_FLAGS:
+                continue
+            o2 = lib.outcome(lambda: (GeneInterval([kids[i] for i in sub], gene_type=GENE_TYPES[spec.get("gene_type", "protein_coding")], gene_id="second",
+                                                   parent_or_seq_chunk_parent=parent) if agg == "gene" else
+                                      FeatureIntervalCollection([kids[i] for i in sub], feature_collection_id="second", parent_or_seq_chunk_parent=parent)))
+            if o2[0] != "ok":
+                dev("second-owner", exc_str(o2), "aggregate", f"{owner}-raises-{o2[1]}")
+                continue
+            B = o2[1]
+            exp2 = (MD.span(sub_children), MD.types_union(sub_children) if agg == "fc" else None, sub.index(sub[MD.primary(sub_children)[0]]))
+            prim = B.primary_transcript if agg == "gene" else B.primary_feature
+            got2 = ((B.start, B.end), set(B.feature_types) if agg == "fc" else None, next((j for j, i in enumerate(sub) if kids[i] is prim), -1))
+            res.note(f"{agg}.second-owner", owner)
+            if got2 != exp2:
+                dev("second-owner", [_jsonable(x) for x in got2], [_jsonable(x) for x in exp2], owner + "-wrong")
     # primary member: identity
     if agg == "gene":
         accessors = (("primary_transcript", lambda: A.primary_transcript), ("get_primary_transcript", lambda: A.get_primary_transcript()),
@@ -260,7 +302,7 @@ def check_aggregate(res, spec):
         gotS = lib.outcome(feat_positions, F)
         if gotS[0] != "ok" or gotS[1] != expS:
             dev(name, list(M.runs(gotS[1])) if gotS[0] == "ok" else exc_str(gotS), list(M.runs(expS)), "positions" + tags)
-        elif (F.start, F.end) != (min(expS), max(expS) + 1):
+        elif expS and (F.start, F.end) != (min(expS), max(expS) + 1):
             dev(name, [F.start, F.end], [min(expS), max(expS) + 1], "merged-span")
 
 
@@ -275,7 +317,7 @@ def check_collection(res, spec):
         built.append(build_aggregate(sub, parent, parent, tag=f"m{mi}")[1])
     genes = [b for b, m in zip(built, members) if m["agg"] == "gene"]
     fcs = [b for b, m in zip(built, members) if m["agg"] == "fc"]
-    cls = dict(agg="ac", n=len(members), parent=pk if isinstance(pk, str) else "chunk")
+    cls = dict(agg="ac", n=len(members), parent=pk if isinstance(pk, str) else ("minus-chunk" if pk[0] == "minus" else "chunk"))
     res.trans()
     o = lib.outcome(lambda: AnnotationCollection(feature_collections=fcs, genes=genes, start=bounds[0], end=bounds[1], parent_or_seq_chunk_parent=parent))
     exp_b = MD.collection_bounds(members, bounds, pk, N)
